@@ -69,8 +69,12 @@ def _every_path_through_body_passes(g: CFG, loop_iter_node, pred) -> bool:
 
 
 def _hybrid(chk, repo):
+    from .common import canon_fn, canon_keep
+    from ..pattern import norm as pn
     ci = repo.cls(HG)
-    step = repo.method(ci, "step")[1]
+    step_src = repo.method(ci, "step")[1]
+    # structural normal form; private helpers inlined except the ones the rules are about
+    step = canon_keep(repo, ci, step_src, keep={"_set_target", "_store_samples", "_set_targets"})
     g = CFG(step)
     loop = _single_loop(step, f"{ci.qual}.step")
     pv = loop.target.id if isinstance(loop.target, ast.Name) else None
@@ -87,28 +91,30 @@ def _hybrid(chk, repo):
         i_step = top_level_index(body, steps[0])
         ok = st[0] < i_step
     problems = [] if ok else ["_set_target(par_name) is not called unconditionally in the loop body before the block's step"]
-    stf = repo.method(ci, "_set_target")[1]
+    stf_src = repo.method(ci, "_set_target")[1]
+    stf = canon_fn(repo, ci, stf_src, 3)       # loops that fill the dict become comprehensions, temporaries are substituted
     p = func_params(stf)[1]
-    dc = [n for n in ast.walk(stf) if isinstance(n, ast.DictComp)]
     asg = [n for n in ast.walk(stf) if isinstance(n, ast.Assign) and isinstance(n.targets[0], ast.Attribute) and n.targets[0].attr == "target"]
-    if len(dc) != 1 or len(asg) != 1:
-        raise AnchorError(f"{ci.qual}._set_target: expected one dict comprehension and one target assignment")
-    d = dc[0]
-    gen = d.generators[0]
-    v = gen.target.id if isinstance(gen.target, ast.Name) else "?"
-    if unparse(gen.iter) != "self.par_names":
-        problems.append(f"conditioning dict iterates `{unparse(gen.iter)}`, not all parameter names")
-    if [unparse(c).replace(" ", "") for c in gen.ifs] != [f"{v}!={p}"]:
-        problems.append(f"conditioning dict filter is {[unparse(c) for c in gen.ifs]}, expected [{v} != {p}]")
-    if unparse(d.key) != v or unparse(d.value) != f"self.current_samples[{v}]":
-        problems.append(f"conditioning values are `{unparse(d.value)}`, not the live self.current_samples[{v}]")
-    dname = None
-    for n in ast.walk(stf):
-        if isinstance(n, ast.Assign) and n.value is d:
-            dname = path_of(n.targets[0])
-    if unparse(asg[0].targets[0]) != f"self.samplers[{p}].target" or unparse(asg[0].value) != f"self.target(**{dname})":
-        problems.append(f"block target is `{unparse(asg[0])}`, expected self.samplers[{p}].target = self.target(**{dname})")
-    chk.add("C09-R2", f"{ci.qual}.step/_set_target", not problems, site(repo, stf),
+    if len(asg) != 1:
+        raise AnchorError(f"{ci.qual}._set_target: expected one target assignment")
+    want = pn(f"self.samplers[{p}].target=self.target(**{{_k0:self.current_samples[_k0] for _k0 in self.par_names if _k0!={p}}})")
+    got = pn(asg[0])
+    if got != want:
+        dcs = [n for n in ast.walk(asg[0]) if isinstance(n, ast.DictComp)]
+        if not dcs:
+            problems.append(f"block target is `{unparse(asg[0])[:120]}`: not the joint conditioned on a mapping of the other blocks' values")
+        else:
+            d = dcs[0]
+            gen = d.generators[0]
+            if pn(gen.iter) != "self.par_names":
+                problems.append(f"conditioning dict iterates `{unparse(gen.iter)}`, not all parameter names")
+            if [pn(c) for c in gen.ifs] != [pn(f"_k0!={p}")]:
+                problems.append(f"conditioning dict filter is {[unparse(c) for c in gen.ifs]}, expected [other != {p}]")
+            if pn(d.value) != "self.current_samples[_k0]":
+                problems.append(f"conditioning values are `{unparse(d.value)}`, not the live self.current_samples[other]")
+            if not problems:
+                problems.append(f"block target is `{unparse(asg[0])[:160]}`, expected self.samplers[{p}].target = self.target(**<that mapping>)")
+    chk.add("C09-R2", f"{ci.qual}.step/_set_target", not problems, site(repo, stf_src),
             "block target = self.target(**{other: self.current_samples[other]}) rebuilt inside the loop", "; ".join(problems), stf)
     # R3a: write-back on every path through the loop body
     itn = g.node_of(loop)
@@ -128,7 +134,7 @@ def _hybrid(chk, repo):
     ex = Expander(step, g)
     problems = []
     inner = [s for s in body if isinstance(s, ast.For)]
-    if len(inner) != 1 or unparse(inner[0].iter) != f"range(self.num_sampling_steps[{pv}])":
+    if len(inner) != 1 or unparse(ex.expand(inner[0].iter, g.node_of(inner[0]))) != f"range(self.num_sampling_steps[{pv}])":
         problems.append("block transitions are not run in `for _ in range(self.num_sampling_steps[par_name])`")
     else:
         calls = [s for s in inner[0].body if isinstance(s, ast.Assign) and isinstance(s.value, ast.Call) and unparse(s.value) == "sampler.step()"]
@@ -146,31 +152,36 @@ def _hybrid(chk, repo):
     _configured_counts(chk, repo, ci)
     # R3c: state carried across the reinitialisation (starts from the block's current value)
     problems = []
-    reinit = [n for n in g.nodes if n.ast is not None and n.kind == "stmt" and unparse(n.ast) == "sampler.reinitialize()"]
-    if len(reinit) != 1:
-        raise AnchorError(f"{ci.qual}.step: expected one sampler.reinitialize()")
+    import re as _re
+    sname = "sampler"
+    reinit = [n for n in g.nodes if n.ast is not None and n.kind == "stmt" and _re.fullmatch(r"[A-Za-z_]\w*\.reinitialize\(\)", unparse(n.ast))]
+    if not reinit:
+        raise AnchorError(f"{ci.qual}.step: expected sampler.reinitialize()")
+    sname = unparse(reinit[0].ast).split(".")[0]
     rn = reinit[0]
     # on every path to reinitialize either (get_state & get_history) or (initial_point = current_point) happened
     def carried(n):
-        return n.ast is not None and n.kind == "stmt" and unparse(n.ast) in ("sampler_state = sampler.get_state()", "sampler.initial_point = sampler.current_point")
-    if not g.must_pass(rn, carried):
+        return n.ast is not None and n.kind == "stmt" and (_re.fullmatch(rf"[A-Za-z_]\w* = {sname}\.get_state\(\)", unparse(n.ast)) is not None
+                                                           or unparse(n.ast) == f"{sname}.initial_point = {sname}.current_point")
+    if not all(g.must_pass(r_, carried) for r_ in reinit):
         problems.append("some path reaches sampler.reinitialize() without capturing the block's current state")
-    setst = [n for n in g.nodes if n.ast is not None and n.kind == "stmt" and unparse(n.ast) == "sampler.set_state(sampler_state)"]
-    nuts_guard = [t for t in g.tests() if unparse(t.ast) == "isinstance(sampler, NUTS)"]
-    if len(setst) != 1 or not g.dominates(rn, setst[0]):
-        problems.append("captured state is not restored after reinitialize()")
+    setst = [n for n in g.nodes if n.ast is not None and n.kind == "stmt" and _re.fullmatch(rf"{sname}\.set_state\([A-Za-z_]\w*\)", unparse(n.ast))]
+    nuts_guard = [t for t in g.tests() if unparse(t.ast) == f"isinstance({sname}, NUTS)"]
     first_inner = g.node_of(inner[0]) if inner else None
-    if first_inner is not None and setst:
-        # every non-NUTS path from reinitialize to the first transition passes set_state
-        avoid_edges = set()
-        for t in nuts_guard:
-            if g.dominates(rn, t):
-                avoid_edges.add((t.id, "T"))       # NUTS branch exempt (restarted from initial_point = current_point)
-        reach = g.reachable_from([m for m, _ in g.succ[rn.id]], avoid_nodes={setst[0].id}, avoid_edges=avoid_edges)
-        if first_inner.id in reach:
-            problems.append("a non-NUTS sampler can reach its transitions without its state having been restored")
-    chk.add("C09-R3", f"{ci.qual}.step/start-point", not problems, site(repo, rn.ast),
-            "state captured before and restored after reinitialize (NUTS: initial_point = current_point)", "; ".join(problems), step)
+    for r_ in reinit:
+        if any(t in nuts_guard and lab == "T" for t, lab in g.guards_of(r_)):
+            continue          # NUTS branch exempt (restarted from initial_point = current_point)
+        if not any(g.dominates(r_, s_) for s_ in setst):
+            problems.append("captured state is not restored after reinitialize()")
+            continue
+        if first_inner is not None:
+            # every non-NUTS path from reinitialize to the first transition passes set_state
+            avoid_edges = {(t.id, "T") for t in nuts_guard if g.dominates(r_, t)}
+            reach = g.reachable_from([m for m, _ in g.succ[r_.id]], avoid_nodes={s_.id for s_ in setst}, avoid_edges=avoid_edges)
+            if first_inner.id in reach:
+                problems.append("a non-NUTS sampler can reach its transitions without its state having been restored")
+    chk.add("C09-R3", f"{ci.qual}.step/start-point", not problems, site(repo, step_src),
+            "state captured before and restored after reinitialize (NUTS: initial_point = current_point)", "; ".join(problems), step_src)
     # R4: sample / warmup
     for m in ("sample", "warmup"):
         fn = repo.method(ci, m)[1]
@@ -182,11 +193,12 @@ def _hybrid(chk, repo):
         ok = len(i_step) == 1 and len(i_store) == 1 and i_step[0] < i_store[0] and len(nested) == 2
         chk.add("C09-R4", f"{ci.qual}.{m}", ok, site(repo, lp), "step() then _store_samples(), once each, unconditionally per sweep",
                 "a sweep is not followed by exactly one unconditional store of the current values", lp)
-    ss = repo.method(ci, "_store_samples")[1]
+    ss_src = repo.method(ci, "_store_samples")[1]
+    ss = canon_fn(repo, ci, ss_src, 3)
     lp = _single_loop(ss, f"{ci.qual}._store_samples")
     v = lp.target.id
     ok = unparse(lp.iter) == "self.par_names" and len(lp.body) == 1 and unparse(lp.body[0]) == f"self.samples[{v}].append(self.current_samples[{v}])"
-    chk.add("C09-R4", f"{ci.qual}._store_samples", ok, site(repo, ss), "appends current_samples[p] for every p", "not every block's current value is stored", ss)
+    chk.add("C09-R4", f"{ci.qual}._store_samples", ok, site(repo, ss_src), "appends current_samples[p] for every p", "not every block's current value is stored", ss_src)
     # R5
     init = repo.method(ci, "__init__")[1]
     asg = [n for n in ast.walk(init) if isinstance(n, ast.Assign) and path_of(n.targets[0]) == "self.target"]
@@ -236,55 +248,57 @@ def _target_derived_keys(repo) -> Dict[str, Set[str]]:
 
 
 def _legacy(chk, repo):
+    from .common import canon_fn, pmatch
+    from ..pattern import norm as pn
     ci = repo.cls(LG)
-    step = repo.method(ci, "step")[1]
+    step_src = repo.method(ci, "step")[1]
+    step = canon_fn(repo, ci, step_src, 2)       # structural normal form (loops that fill a dict become comprehensions), helpers inlined
     cs = func_params(step)[1]
     loop = _single_loop(step, f"{ci.qual}.step")
     pv = loop.target.id
-    names_src = unparse(loop.iter)
-    pn_def = [n for n in step.body if isinstance(n, ast.Assign) and path_of(n.targets[0]) == names_src]
-    ok = names_src == "self.par_names" or (len(pn_def) == 1 and unparse(pn_def[0].value) == "self.par_names")
-    chk.add("C09-R1", f"{ci.qual}.step", ok, site(repo, loop), "for par_name in self.par_names", f"sweep iterates `{names_src}`", loop)
-    _par_names_source(repo, ci, chk, "C09-R1")
-    # R2
-    problems = []
-    body = loop.body
-    dcs = [s for s in body if isinstance(s, ast.Assign) and isinstance(s.value, ast.DictComp)]
-    if len(dcs) != 1:
-        raise AnchorError(f"{ci.qual}.step: expected one conditioning dict in the loop body")
-    d = dcs[0].value
-    dname = path_of(dcs[0].targets[0])
-    gen = d.generators[0]
-    v = gen.target.id
-    if unparse(gen.iter) not in (names_src, "self.par_names"):
-        problems.append(f"conditioning dict iterates `{unparse(gen.iter)}`")
-    if [unparse(c).replace(" ", "") for c in gen.ifs] != [f"{v}!={pv}"]:
-        problems.append(f"conditioning dict filter is {[unparse(c) for c in gen.ifs]}")
-    if unparse(d.key) != v or unparse(d.value) != f"{cs}[{v}]":
-        problems.append(f"conditioning values are `{unparse(d.value)}`, not the live {cs}[{v}]")
-    sdef = [s for s in body if isinstance(s, ast.Assign) and path_of(s.targets[0]) == "sampler"]
-    if len(sdef) != 1 or unparse(sdef[0].value) != f"self.samplers[{pv}](self.target(**{dname}))":
-        problems.append(f"block sampler is `{unparse(sdef[0].value) if sdef else None}`, expected self.samplers[p](self.target(**{dname}))")
-    elif body.index(dcs[0]) > body.index(sdef[0]):
-        problems.append("conditioning dict is built after the sampler")
-    chk.add("C09-R2", f"{ci.qual}.step", not problems, site(repo, dcs[0]), "sampler built on self.target(**{other: current[other]}) inside the loop",
-            "; ".join(problems), loop)
-    # R3
-    g = CFG(step)
+    ex = Expander(step)
+    g = ex.cfg
     itn = g.node_of(loop)
+    names_src = unparse(ex.expand(loop.iter, itn))
+    ok = names_src == "self.par_names"
+    chk.add("C09-R1", f"{ci.qual}.step", ok, site(repo, step_src), "for par_name in self.par_names", f"sweep iterates `{names_src}`", step_src)
+    _par_names_source(repo, ci, chk, "C09-R1")
+    # R2 + R3: the value written back for block p, with every local replaced by its definition
+    WANT = f"self.samplers[{pv}](self.target(**{{_k0:{cs}[_k0] for _k0 in self.par_names if _k0!={pv}}})).step({cs}[{pv}])"
+    wb_nodes = [n for n in g.nodes if n.kind == "stmt" and isinstance(n.ast, ast.Assign) and pn(n.ast.targets[0]) == pn(f"{cs}[{pv}]")]
+    if not wb_nodes:
+        raise AnchorError(f"{ci.qual}.step: no write-back `{cs}[{pv}] = ...` in the sweep")
+    problems = []
+    good = []
+    for n in wb_nodes:
+        e = ex.expand(n.ast.value, n, stop=frozenset({cs, pv}))
+        t = pn(e)
+        if t == pn(f"{cs}[{pv}].reshape(-1)"):
+            continue                         # re-shaping of the value just written
+        core = t[:-len(".reshape(-1)")] if t.endswith(".reshape(-1)") else t
+        if core == pn(WANT):
+            good.append(n)
+        else:
+            # name what differs
+            if ".step(" not in core:
+                problems.append(f"`{unparse(n.ast)[:70]}` is not the result of the block sampler's step")
+            elif not core.endswith(pn(f".step({cs}[{pv}])")):
+                problems.append(f"the block's transition does not start from its current value {cs}[{pv}]: `{unparse(e)[-60:]}`")
+            else:
+                problems.append(f"block sampler is `{unparse(e)[:150]}`, expected self.samplers[p](self.target(**{{other: {cs}[other] for other in self.par_names if other != p}})): "
+                                f"it must be built inside the loop on the joint conditioned on the LIVE values of all other blocks")
+    chk.add("C09-R2", f"{ci.qual}.step", bool(good) and not problems, site(repo, step_src), "sampler built on self.target(**{other: current[other]}) inside the loop",
+            "; ".join(problems) or "no write-back of a block transition found", step_src)
 
     def is_wb(n):
-        a = n.ast
-        return isinstance(a, ast.Assign) and unparse(a.targets[0]) == f"{cs}[{pv}]" and isinstance(a.value, ast.Call) \
-            and unparse(a.value) == f"sampler.step({cs}[{pv}])"
-    wbs = [n for n in g.nodes if n.ast is not None and is_wb(n)]
-    ok = len(wbs) == 1 and _every_path_through_body_passes(g, itn, is_wb)
-    chk.add("C09-R3", f"{ci.qual}.step/write-back", ok, site(repo, wbs[0].ast if wbs else loop),
+        return any(n is x for x in good)
+    ok = len(good) == 1 and _every_path_through_body_passes(g, itn, is_wb)
+    chk.add("C09-R3", f"{ci.qual}.step/write-back", ok, site(repo, step_src),
             f"{cs}[p] = sampler.step({cs}[p]) on every path (starts from the block's current value, result written back)",
-            "the block's transition does not start from its current value or its result is not written back on every path", loop)
+            "the block's transition does not start from its current value or its result is not written back on every path", step_src)
     rets = [n for n in step.body if isinstance(n, ast.Return)]
-    chk.add("C09-R3", f"{ci.qual}.step/return", len(rets) == 1 and path_of(rets[0].value) == cs, site(repo, step),
-            "returns the updated mapping", "step does not return the updated mapping", step)
+    chk.add("C09-R3", f"{ci.qual}.step/return", len(rets) == 1 and path_of(rets[0].value) == cs, site(repo, step_src),
+            "returns the updated mapping", "step does not return the updated mapping", step_src)
     # R4: sample loops
     smp = repo.method(ci, "sample")[1]
     loops = [n for n in smp.body if isinstance(n, ast.For)]
@@ -305,16 +319,19 @@ def _legacy(chk, repo):
     chk.add("C09-R4", f"{ci.qual}._store_samples", ok and init_ok, site(repo, ss), "stores every block's value in column i",
             "not every block is stored, or sampling does not start from _get_initial_points()", ss)
     # continuation priority
-    gip = repo.method(ci, "_get_initial_points")[1]
+    gip_src = repo.method(ci, "_get_initial_points")[1]
+    gip = canon_fn(repo, ci, gip_src, 1)
     g2 = CFG(gip)
     problems = []
     def reads(n, attr):
-        return n.ast is not None and isinstance(n.ast, ast.Assign) and f"self.{attr}[" in unparse(n.ast.value)
+        if n.ast is None or n.kind not in ("stmt", "return") or not isinstance(n.ast, (ast.Assign, ast.Return)) or n.ast.value is None:
+            return False
+        return f"self.{attr}[" in unparse(n.ast.value)
     s_nodes = [n for n in g2.nodes if reads(n, "samples")]
     w_nodes = [n for n in g2.nodes if reads(n, "samples_warmup")]
     if len(s_nodes) != 1 or len(w_nodes) != 1:
         raise AnchorError(f"{ci.qual}._get_initial_points: expected one read of samples and one of samples_warmup")
-    if not unparse(s_nodes[0].ast.value).endswith("[:, -1]") or not unparse(w_nodes[0].ast.value).endswith("[:, -1]"):
+    if "[:, -1]" not in unparse(s_nodes[0].ast.value) or "[:, -1]" not in unparse(w_nodes[0].ast.value):
         problems.append("continuation does not read the last stored column [:, -1]")
     # the warm-up column may only be used when no sample has been stored: the warm-up read must require the 'absent' edge
     # of a test about the stored samples
@@ -329,8 +346,8 @@ def _legacy(chk, repo):
     sreq = [t for t in tests if g2.requires_edge(s_nodes[0], t, "T")]
     if not sreq:
         problems.append("the stored-samples branch is not selected by a test on the stored samples")
-    chk.add("C09-R4", f"{ci.qual}._get_initial_points", not problems, site(repo, gip),
-            "resume from samples[:, -1]; warm-up column only if no sample was ever stored", "; ".join(problems), gip)
+    chk.add("C09-R4", f"{ci.qual}._get_initial_points", not problems, site(repo, gip_src),
+            "resume from samples[:, -1]; warm-up column only if no sample was ever stored", "; ".join(problems), gip_src)
     init = repo.method(ci, "__init__")[1]
     asg = [n for n in ast.walk(init) if isinstance(n, ast.Assign) and path_of(n.targets[0]) == "self.target"]
     chk.add("C09-R5", f"{ci.qual}.__init__", len(asg) == 1 and unparse(asg[0].value) == f"{func_params(init)[1]}()", site(repo, init),
